@@ -493,8 +493,9 @@ func (vs *ValidatorStore) GetEndBlockUpdate(ctx *ValidatorContext, req types.Req
 				nonTopValidators[addrHuman] = validator.PubKey.GetABCIPubKey()
 			}
 
-			//distribute the fee for validators
-			if distribute {
+			//distribute the fee for validators (nothing to share out by power while no record carries any power:
+			//everybody unstaked everything and Tendermint keeps running on its last set)
+			if distribute && vs.totalPower > 0 {
 				feeShare := total.MultiplyInt64(queued.Priority()).DivideInt64(vs.totalPower)
 
 				err = ctx.FeePool.MinusFromPool(feeShare)
